@@ -3,7 +3,7 @@ Monitor: post-condition contract on parse_script (schema + per-scope label facts
 import itertools
 import random
 
-from .. import gen_prog
+from .. import gen_prog, layout
 from ..contracts import Contracts, model_wellformed
 from ..refast import pp
 
@@ -29,7 +29,7 @@ def meta(tier):
         'level': 'exploration',
         'rule': (f'(a) every nesting chain of the 26 construct variants to depth {d} ({gen_prog.shape_count(d)} chains), each parsed at global '
                  'scope, inside one function, and as a three-function script sharing the label counter; (b) all sibling pairs of depth<=2 '
-                 'chains in one scope, function-after-construct and function-inside-open-block placements, near-valid texts whose loop control crosses a function boundary; (c) random deeper generated programs; (d) depth<=2 shapes and their empty-body variants are executed and watched for "Unknown jump label". Every parse goes '
+                 'chains in one scope, function-after-construct and function-inside-open-block placements, near-valid texts whose loop control crosses a function boundary; (c) random deeper generated programs, each also in a respelled layout (blanks before header colons, around commas and parentheses, tabs, trailing blanks); (d) depth<=2 shapes and their empty-body variants are executed and watched for "Unknown jump label". Every parse goes '
                  'through the parse_script contract: schema-valid, each generated jump targets a label defined exactly once in its scope, '
                  'each generated label is targeted, lint emits no label warning. Non-trivial: nesting depth >= 2 or >= 2 sibling '
                  'constructs; distinct = distinct program text.'),
@@ -99,6 +99,8 @@ def run_watch(prog, acc, api, kind):
     """Run-time half of the property: structured code never raises "Unknown jump label"."""
     bare_script, model = api
     text = '\n'.join(pp(prog))
+    if kind == 'shape':
+        text = layout.respell(text, random.Random(len(text)), 0.5)
     for pat in ([1, 0, 1, 1, 0, 0, 1, 0], [0, 1, 0, 0, 1, 1, 0, 1]):
         try:
             bare_script.execute_script(bare_script.parse_script(text), {'globals': {'nx': gen_prog.make_nx(pat)}, 'maxStatements': 3000, 'logFn': None})
@@ -129,6 +131,9 @@ def run_shard(spec, acc):
             check_text('\n'.join(pp(gen_prog.build_shape(chain, 'global'))), acc, api, con, nt, 'chain')
             check_text('\n'.join(pp(gen_prog.build_shape(chain, 'function'))), acc, api, con, nt, 'chain')
             check_text('\n'.join(pp(three_functions(chain))), acc, api, con, True, 'chain3')
+            # the same programs in other spellings (blanks before the colon of a header, around commas/parentheses, tabs, trailing blanks)
+            rs = random.Random(ix)
+            check_text(layout.respell('\n'.join(pp(gen_prog.build_shape(chain, 'function' if ix % 2 else 'global'))), rs, 0.6), acc, api, con, nt, 'chain-respelled')
             if len(chain) <= 2:
                 # the same function defined inside an open global if / for / while block
                 f = gen_prog.build_shape(chain, 'function')
@@ -162,7 +167,9 @@ def run_shard(spec, acc):
             rnd = random.Random(base + i)
             gen = gen_prog.ProgGen(rnd, maxdepth=rnd.choice([3, 5, 6, 7]))
             gen.late_defs = True
-            check_text('\n'.join(pp(gen.program())), acc, api, con, True, 'random')
+            text = '\n'.join(pp(gen.program()))
+            check_text(text, acc, api, con, True, 'random')
+            check_text(layout.respell(text, rnd, rnd.choice([0.2, 0.5, 0.9])), acc, api, con, True, 'random-respelled')
     acc.count('contract_evals_parse', con.evals.get('parse_script_post', 0))
     if con.evals.get('parse_script_post', 0) == 0:
         acc.note_inconclusive('parse_script contract saw zero evaluations')
